@@ -62,6 +62,20 @@ CHECKS = {
         "Trusted: the recording harness. Position of a zero-length span not asserted; comparison with parse_map under recovery only when no error has more than one repair sequence.",
         "DESIGN.md section 5, C08",
     ),
+    "C09": (
+        "property-based testing: differential against a naive reference lexer (position loop, Vec state stack, regex crate compiled from the abstract syntax)",
+        "exploration",
+        "Generated lex specifications (overlapping rules, inclusive/exclusive start states, push/pop/replace, regex flags) x inputs incl. multi-byte text, through from_str and through Rule::new/from_rules: same lexemes, same single error position, tiling, exact missing-name sets from set_rule_ids.",
+        "Trusted: the regex crate as matching oracle, the naive lexer, the abstract-spec renderer. set_rule_ids order as used by all callers (the doc comment's order is stale).",
+        "DESIGN.md section 5, C09",
+    ),
+    "C11": (
+        "property-based testing: print-then-parse round trip of abstract lexer specifications over varied renderings and flag placements; behavioural regex comparison; span checks against the renderer's layout map; mutated invalid specifications",
+        "exploration",
+        "Rules/order/names/start states/targets and every span compared with the abstract specification and the byte layout recorded while rendering; regex denotation compared by lexing sample strings with one-rule projections; flags in the %grmtools section vs new_with_options; error spans of invalid variants.",
+        "Trusted: renderer + layout map, regex crate. re_str() text itself not compared.",
+        "DESIGN.md section 5, C11",
+    ),
     "C16": (
         "property-based testing: cross-checking every public state-graph / state-table query per state, token and rule; closed states against a reference LR(1) closure",
         "exploration",
